@@ -17,26 +17,52 @@ from vp import env, evlog, ref_wf
 LEVEL = "exploration"
 
 
-def gen_spec(rng, nmax=5, p_conn=0.45, p_split=0.5, p_comb=0.3):
+def gen_spec(rng, nmax=5, p_conn=0.45, p_split=0.5, p_comb=0.3, ext=False):
+    """ext=True adds list-producing nodes split downstream, nested sub-workflows, combiners over
+    upstream axes and workflow inputs (x, y)"""
     n = rng.randint(2, nmax)
     nodes = []
+    lnodes = []      # uncombined list-producing nodes
     for i in range(n):
         name = f"N{i}"
+        kind = "F"
+        if ext:
+            r = rng.random()
+            kind = "L" if r < 0.18 else ("W" if r < 0.3 else "F")
+        fields = ["a", "b", "c"] if kind == "F" else ["a", "b"]
         inputs = {}
-        fields = ["a", "b", "c"]
         for f in fields:
             r = rng.random()
             if i > 0 and r < p_conn:
                 inputs[f] = ["node", rng.choice(nodes)["name"]]
             elif r < p_conn + 0.15:
                 inputs[f] = ["lit", f"{name.lower()}{f}"]
+            elif ext and r < p_conn + 0.25:
+                inputs[f] = ["wfin", rng.choice(["x", "y"])]
         if i > 0 and not any(v[0] == "node" for v in inputs.values()) and rng.random() < 0.85:
             inputs[rng.choice(fields)] = ["node", rng.choice(nodes)["name"]]
         free = [f for f in fields if f not in inputs]
         nd = {"name": name, "inputs": inputs}
+        if kind != "F":
+            nd["kind"] = kind
+        if kind == "L":
+            nd["n"] = rng.randint(2, 3)
+        if kind == "W":
+            if not inputs:
+                inputs["a"] = ["lit", f"{name.lower()}a"]
+            sub_nodes = [{"name": f"{name}s0", "inputs": {f: ["wfin", f] for f in inputs}}]
+            if rng.random() < 0.5:
+                sub_nodes[0]["split"] = {"form": "c", "vals": {"c": ["lit", [f"{name.lower()}sc{j}" for j in range(2)]]}}
+                if rng.random() < 0.5:
+                    sub_nodes[0]["comb"] = ["c"]
+            if rng.random() < 0.5:
+                sub_nodes.append({"name": f"{name}s1", "inputs": {"a": ["node", f"{name}s0"]}})
+            nd["sub"] = {"nodes": sub_nodes, "out": [sub_nodes[-1]["name"]]}
+            free = []
         if free and rng.random() < p_split:
             k = rng.randint(1, min(2, len(free)))
             fs = sorted(rng.sample(free, k))
+            vals = {}
             if k == 1:
                 form = fs[0]
                 lens = {fs[0]: rng.randint(1, 3)}
@@ -47,15 +73,34 @@ def gen_spec(rng, nmax=5, p_conn=0.45, p_split=0.5, p_comb=0.3):
                 form = {"i": fs}
                 m = rng.randint(1, 3)
                 lens = {f: m for f in fs}
-            nd["split"] = {"form": form,
-                           "vals": {f: ["lit", [f"{name.lower()}{f}{j}" for j in range(lens[f])]] for f in fs}}
+            for f in fs:
+                vals[f] = ["lit", [f"{name.lower()}{f}{j}" for j in range(lens[f])]]
+            if ext and lnodes and not isinstance(form, dict) or (ext and lnodes and isinstance(form, dict) and "o" in form):
+                if rng.random() < 0.6:
+                    vals[fs[0]] = ["node", rng.choice(lnodes)]      # split over an upstream list output
+            nd["split"] = {"form": form, "vals": vals}
             if rng.random() < p_comb:
                 nd["comb"] = sorted(rng.sample(fs, rng.randint(1, k)))
+        if ext and kind == "F" and rng.random() < 0.15:
+            # combine over an axis inherited from an upstream node
+            ups = [v[1] for v in inputs.values() if v[0] == "node"]
+            cands = []
+            for u in ups:
+                und = next(x for x in nodes if x["name"] == u)
+                if und.get("split"):
+                    for f, r in und["split"]["vals"].items():
+                        if f not in (und.get("comb") or []) and not (isinstance(und["split"]["form"], dict) and "i" in und["split"]["form"]
+                                                                       and set(und.get("comb") or []) & set(und["split"]["vals"])):
+                            cands.append(f"{u}.{f}")
+            if cands:
+                nd["comb"] = sorted(set(nd.get("comb", []) + [rng.choice(cands)]))
         nodes.append(nd)
+        if kind == "L" and not nd.get("comb"):
+            lnodes.append(name)
     return {"nodes": nodes, "out": [nodes[-1]["name"]]}
 
 
-def run_spec(spec, wctx, worker="debug", n_procs=2, **subkw):
+def run_spec(spec, wctx, worker="debug", n_procs=2, wfin=None, wfsplit=None, **subkw):
     from pydra.engine.submitter import Submitter
     from pydra.engine.workflow import Workflow
     from vp.gen_wf import GenWF
@@ -63,7 +108,9 @@ def run_spec(spec, wctx, worker="debug", n_procs=2, **subkw):
     log = evlog.start(wctx.fresh_dir("log") / "ev.jsonl")
     out = err = None
     try:
-        task = GenWF(spec=json.dumps(spec, sort_keys=True))
+        task = GenWF(spec=json.dumps(spec, sort_keys=True), **(wfin or {}))
+        if wfsplit:
+            task = task.split(wfsplit[0], **{wfsplit[0]: wfsplit[1]})
         kw = {"n_procs": n_procs} if worker == "cf" else {}
         with Submitter(worker=worker, cache_root=wctx.fresh_dir("cache"), **kw, **subkw) as sub:
             res = sub(task, raise_errors=True)
@@ -82,21 +129,72 @@ def shape_of(spec):
     return f"n{len(spec['nodes'])}-fanin{fanin}-split{splits}-comb{combs}"
 
 
+def reference(case):
+    """-> (per-node Counter of job terms, expected workflow output, shared-origin nodes, tainted nodes)"""
+    spec = case["spec"]
+    wfin = dict(case.get("wfin") or {})
+    runs = [wfin]
+    if case.get("wfsplit"):
+        runs = [{**wfin, case["wfsplit"][0]: v} for v in case["wfsplit"][1]]
+    per_node = {}
+    outs = []
+    bad = set()
+    for w in runs:
+        jobs = []
+        res = ref_wf.evaluate(spec, wfin=w, jobs_out=jobs)
+        bad |= set(ref_wf.shared_origin_nodes(spec, res))
+        for nm, t in jobs:
+            per_node.setdefault(nm, Counter())[t] += 1
+        outs.append(res[spec["out"][0]].final())
+    return per_node, (outs if case.get("wfsplit") else outs[0]), sorted(bad), ref_wf.descendants_or_self(spec, bad)
+
+
+def all_inherited_axes_combined(spec, case):
+    """some node has its own splitter and a combiner that removes every axis it inherits from upstream"""
+    res = ref_wf.evaluate(spec, wfin=case.get("wfin") or {})
+    for nd in spec["nodes"]:
+        if not nd.get("split") or not any("." in c for c in nd.get("comb", [])):
+            continue
+        inherited = [ax for ax in res[nd["name"]].axes_all if ax[0] != nd["name"]]
+        if inherited and not any(ax in res[nd["name"]].axes for ax in inherited):
+            return True
+    return False
+
+
+def dual_use_nodes(spec):
+    """nodes that use one upstream output both as a split source and as a plain input"""
+    out = []
+    for nd in spec["nodes"]:
+        src = {r[1] for r in (nd.get("split") or {}).get("vals", {}).values() if r[0] == "node"}
+        plain = {r[1] for r in nd.get("inputs", {}).values() if r[0] == "node"}
+        if src & plain:
+            out.append(nd["name"])
+    return out
+
+
 def decide(case, wctx):
     spec = case["spec"]
-    ref = ref_wf.evaluate(spec)
-    bad = ref_wf.shared_origin_nodes(spec, ref)
-    tainted = ref_wf.descendants_or_self(spec, bad)
-    out, err, ev = run_spec(spec, wctx, worker=case.get("worker", "debug"))
+    per_node, want_out, bad, tainted = reference(case)
+    out, err, ev = run_spec(spec, wctx, worker=case.get("worker", "debug"), wfin=case.get("wfin"), wfsplit=case.get("wfsplit"))
     starts = {}
     for e in ev:
         if e["ev"] == "start":
             starts.setdefault(e["node"], []).append(e["term"])
-    njobs = sum(len(r.jobs) for r in ref.values())
-    r = {"case": case, "sig": env.sig_of(spec),
+    njobs = sum(sum(c.values()) for c in per_node.values())
+    feats = set()
+    for nd in spec["nodes"]:
+        if nd.get("kind") in ("L", "W"):
+            feats.add(nd["kind"])
+        if any("." in c for c in nd.get("comb", [])):
+            feats.add("upcomb")
+        if any(r[0] == "node" for r in (nd.get("split") or {}).get("vals", {}).values()):
+            feats.add("splitlist")
+    if case.get("wfsplit"):
+        feats.add("wfsplit")
+    r = {"case": case, "sig": env.sig_of(case),
          "counters": {"body_starts": sum(len(v) for v in starts.values()), "reference_jobs": njobs,
                       "graphs_with_shared_origin": 1 if bad else 0},
-         "distinct": {"graph_shapes": [shape_of(spec)]},
+         "distinct": {"graph_shapes": [shape_of(spec) + "".join("-" + f for f in sorted(feats))]},
          "nontrivial": njobs >= 3 and any(nd.get("split") for nd in spec["nodes"]),
          "obs": {"out": out if not isinstance(out, list) else out[:4], "err": err,
                  "jobs_per_node": {k: len(v) for k, v in starts.items()}}}
@@ -106,16 +204,24 @@ def decide(case, wctx):
         r["witness"] = {"why": "valid workflow raised", "error": err, "shared_origin_nodes": bad}
         if bad:
             r["mech"] = "shared-origin-upstreams"
+        elif all_inherited_axes_combined(spec, case) and ("max() iterable argument is empty" in err or err.startswith("IndexError")):
+            r["mech"] = "own-splitter-with-all-upstream-axes-combined"
         return r
     mism = []
+    # nested workflow nodes log under their sub-node names; a W node is tainted with its parent
+    owner = {}
     for nd in spec["nodes"]:
-        nm = nd["name"]
-        want = Counter(t for _, t in ref[nm].jobs)
+        owner[nd["name"]] = nd["name"]
+        for sn in (nd.get("sub") or {}).get("nodes", []):
+            owner[sn["name"]] = nd["name"]
+    for nm in sorted(set(per_node) | set(starts)):
+        want = per_node.get(nm, Counter())
         got = Counter(starts.get(nm, []))
-        if want != got:
+        # identical jobs (e.g. jobs of a split workflow that do not depend on the split input) may share one execution
+        ok = set(got) == set(want) and all(1 <= got[t] <= want[t] for t in want)
+        if not ok:
             mism.append({"node": nm, "expected": sorted(want.elements())[:8], "got": sorted(got.elements())[:8],
                          "n_expected": sum(want.values()), "n_got": sum(got.values())})
-    want_out = ref[last].final()
     if out != want_out:
         mism.append({"node": "<workflow output>", "expected": want_out if not isinstance(want_out, list) else want_out[:8],
                      "got": out if not isinstance(out, list) else out[:8], "of": last})
@@ -125,9 +231,14 @@ def decide(case, wctx):
     r["verdict"] = "violated"
     r["witness"] = {"why": "node jobs / outputs differ from the nested-loop reference", "mismatches": mism[:4],
                     "shared_origin_nodes": bad}
-    clean = [m for m in mism if (m["node"] if m["node"] != "<workflow output>" else m["of"]) not in tainted]
+    clean = [m for m in mism if owner.get(m["node"] if m["node"] != "<workflow output>" else m["of"], m["node"]) not in tainted]
     if bad and not clean:
         r["mech"] = "shared-origin-upstreams"
+    else:
+        dual = ref_wf.descendants_or_self(spec, dual_use_nodes(spec))
+        rest = [m for m in mism if owner.get(m["node"] if m["node"] != "<workflow output>" else m["of"], m["node"]) not in (tainted | dual)]
+        if dual and not rest:
+            r["mech"] = "split-source-also-plain-input"
     return r
 
 
@@ -139,10 +250,17 @@ def run(ctx):
     quick = ctx.tier == "quick"
     rng = ctx.rng("gen")
     cases = []
-    for i in range(130 if quick else 4000):
+    for i in range(100 if quick else 3000):
         cases.append({"spec": gen_spec(rng, nmax=rng.choice([3, 4, 5])), "worker": "cf" if i % 15 == 0 else "debug"})
+    for i in range(60 if quick else 2500):
+        c = {"spec": gen_spec(rng, nmax=rng.choice([3, 4, 5]), ext=True), "worker": "cf" if i % 15 == 7 else "debug",
+             "wfin": {"x": "vx", "y": "vy"}}
+        if rng.random() < 0.25:
+            c["wfsplit"] = ["x", ["vx0", "vx1"]]
+        cases.append(c)
     ctx.rule = ("random workflow graphs of 2-5 term nodes (inputs literal / earlier node output; own splitter single/outer/"
-                "inner over 1-3 unique tokens; own-axis combiners); non-trivial = >=3 reference jobs and >=1 split node; "
+                "inner over 1-3 unique tokens; own-axis combiners) + an extended grammar (list-producing nodes split downstream, nested "
+                "sub-workflows, combiners over upstream axes, workflow inputs, split of the whole workflow); non-trivial = >=3 reference jobs and >=1 split node; "
                 "distinct = distinct graph spec")
     ctx.record_all(ctx.pmap("vp.props.c03:case_batch", [{"cases": cases[i:i + 5]} for i in range(0, len(cases), 5)],
                             timeout=900 if quick else 3400))
